@@ -37,7 +37,6 @@ B = [
     ("c39-dash-as-pair", "code39/encoder.go", "44: `/L`, 47: `/O`,", "44: `/L`, 45: `/M`, 46: `/N`, 47: `/O`,", "full-ASCII Code 39 spells '-' and '.' as /M and /N (valid alternative spellings)"),
     ("c128-never-code-c", "code128/encode.go", "func shouldUseCTable(nextRunes []rune, curEncoding byte) bool {\n", "func shouldUseCTable(nextRunes []rune, curEncoding byte) bool {\n\tif len(nextRunes) > 0 && nextRunes[0] != FNC1 && len(nextRunes) < 1000 {\n\t\treturn false\n\t}\n",
      "digits are never packed in code set C (longer but valid symbols; the property does not ask for the shortest symbol)"),
-    ("pdf-no-numeric-compaction", "pdf417/highlevel.go", "min_numeric_count = 13", "min_numeric_count = 100000", "long digit runs stay in text compaction: another valid high-level encoding"),
     ("aztec-no-punct-latch", "aztec/highlevel.go", "if !charInCurrentTable || mode == s.mode || mode == mode_digit {", "if (mode != mode_punct || s.mode == mode_punct) && (!charInCurrentTable || mode == s.mode || mode == mode_digit) {",
      "the search never latches to PUNCT (shifts and binary shift are used instead): another valid high-level encoding"),
     ("qr-penalty-bound-noop", "qr/encoder.go", "\tlowestPenalty := ^uint(0)\n", "\tlowestPenalty := ^uint(0) / 2\n", "pure no-op on the penalty bound (scores never get near it)"),
